@@ -88,9 +88,13 @@ class Item:
         return k if k is NotImplemented else self.k >= k
 
     def __eq__(self, o):
+        if self.k == 7:          # k = 7: equality is not reflexive (like NaN)
+            return False
         return self.k == o.k if isinstance(o, Item) else NotImplemented
 
     def __ne__(self, o):
+        if self.k == 7:
+            return True
         return self.k != o.k if isinstance(o, Item) else NotImplemented
 
     def __hash__(self):
